@@ -63,8 +63,13 @@ pub enum Ev {
     Register(usize),
     RegisterAll,
     Sig { signer: usize, ty: Ty, variant: Variant },
-    /// every signer submits its honest signature for the current entity
+    /// every signer submits its honest signature for the current entity (again, if it already did:
+    /// repeated signatures are part of C14's event space)
     SigAll(Ty),
+    /// every HONEST signer submits its signature for the current entity unless the aggregator has
+    /// already acknowledged one from it for that entity (a real signer signs each beacon once and
+    /// retries only while the publication fails)
+    HonestSigs(Ty),
     /// the current open message of this type reaches its expiry date
     Expire(Ty),
     Restart,
@@ -415,6 +420,29 @@ pub async fn apply(w: &World, ev: &Ev, log: &mut Vec<String>) {
             for i in 0..w.fixture.signers_fixture().len() {
                 let s = submit(w, i, *ty, Variant::Current).await;
                 log.push(format!("sig({i},{ty:?})={:?}", s.map(|s| s.status)));
+            }
+        }
+        Ev::HonestSigs(ty) => {
+            let entity = w.current_entity(ty.disc()).await;
+            let key = format!("{entity:?}");
+            // a signer node reads the epoch settings from the aggregator first: while the aggregator
+            // has not entered the epoch of the signer's node, the signer cannot sign for it yet
+            let tp = w.time_point().await;
+            if w.served_epoch().await != Some(*tp.epoch) {
+                log.push(format!("honest-sigs({ty:?}): aggregator not in epoch {} yet, signers wait", tp.epoch));
+                return;
+            }
+            for i in 0..w.fixture.signers_fixture().len() {
+                if w.acknowledged.borrow().contains(&(i, key.clone())) {
+                    continue;
+                }
+                let s = submit(w, i, *ty, Variant::Current).await;
+                if let Some(sub) = &s
+                    && (sub.status == 201 || sub.status == 202)
+                {
+                    w.acknowledged.borrow_mut().insert((i, key.clone()));
+                }
+                log.push(format!("honest-sig({i},{ty:?})={:?}", s.map(|s| s.status)));
             }
         }
         Ev::Expire(ty) => {
